@@ -191,7 +191,23 @@ func c01one(c *mon.Ctx, env *Env, s *statement, w, gmp int, rng *rand.Rand, case
 		// a verifier has its own argument objects: commitments in any mix of representations (the prover normalised its
 		// own in place), claimed values and pointers of its own
 		v := *s
-		v.materialise(rng, 3, rng.Intn(3))
+		ptrK := rng.Intn(3)
+		if caseNo%4 == 2 {
+			ptrK = 0
+		}
+		v.materialise(rng, 3, ptrK)
+		if ptrK == 0 && caseNo%4 == 2 && len(v.Cs) >= 2 {
+			// the verifier's commitments are projective representations whose Z coordinates multiply to one
+			vals := make([]banderwagon.Element, len(v.Cs))
+			for i := range vals {
+				vals[i] = *v.Cs[i]
+			}
+			relateZ(vals, rng)
+			for i := range vals {
+				*v.Cs[i] = vals[i]
+			}
+			c.Count("verifier_commitments_with_related_z", 1)
+		}
 		ok3, err3, vch3 := v.verify(env, &pr2)
 		if !ok3 || err3 != nil {
 			c.Fail("honest-proof-rejected/verifier-own-objects", fmt.Sprintf("the honest proof is rejected (ok=%v err=%v) when the verifier uses its own commitment objects in mixed representations (%s)", ok3, err3, cls), det)
